@@ -17,6 +17,7 @@ MODULES = {
     "part": "partition",
     "xref": "xref",
     "numeq": "numeqob",
+    "accframe": "accframe",
     "c03": "c03",
     "native": "nativeob",
     "lean": "leanob",
